@@ -44,10 +44,11 @@ type AppCfg struct {
 	NReq    int  `json:"http_requests"`
 	NMsg    int  `json:"ws_messages"`
 	RawWS   bool `json:"raw_masked_ws_client"`
+	Burst   bool `json:"bursts"` // several messages in one direction before the other side answers
 }
 
 func (scApp) GenCfg(rng *sim.Rand, tier, prop, variant string) json.RawMessage {
-	c := AppCfg{Hairpin: rng.Chance(0.5), MTU: []int{576, 1500}[rng.Intn(2)], NReq: rng.Range(1, 6), NMsg: rng.Range(1, 8), RawWS: rng.Chance(0.5)}
+	c := AppCfg{Hairpin: rng.Chance(0.5), MTU: []int{576, 1500}[rng.Intn(2)], NReq: rng.Range(1, 6), NMsg: rng.Range(1, 8), RawWS: rng.Chance(0.5), Burst: rng.Chance(0.5)}
 	b, _ := json.Marshal(c)
 	return b
 }
@@ -66,7 +67,7 @@ type appWorld struct {
 	cur     *appReq // request the client is performing
 	handled int     // handler invocations for cur
 	wsIn    [][]byte
-	wsReply func(msg []byte) []byte
+	wsReply func(msg []byte) [][]byte
 	done    bool
 	seed    uint64
 }
@@ -142,7 +143,9 @@ func (w *appWorld) onWS(r *http.Request, resp *http.Response) {
 			return
 		}
 		w.wsIn = append(w.wsIn, msg)
-		c.SendData(w.wsReply(msg))
+		for _, rep := range w.wsReply(msg) {
+			c.SendData(rep)
+		}
 	}
 }
 
@@ -217,10 +220,22 @@ func (w *appWorld) client(r *sim.Rand) {
 		return
 	}
 	// WebSocket, bundled client <-> bundled server (unmasked frames both ways)
-	w.wsReply = func(m []byte) []byte {
-		out := make([]byte, len(m))
+	w.wsReply = func(m []byte) [][]byte {
+		first := make([]byte, len(m))
 		for i := range m {
-			out[i] = m[len(m)-1-i] // reversed: both directions carry distinguishable bytes
+			first[i] = m[len(m)-1-i] // reversed: both directions carry distinguishable bytes
+		}
+		out := [][]byte{first}
+		if w.cfg.Burst {
+			// the server answers some messages with a burst: further, mostly shorter, messages right behind the first
+			h := sim.Mix(w.seed ^ uint64(len(m))*0x9e3779b97f4a7c15)
+			for j := 0; j < int(h%3); j++ {
+				n := 1 + int((h>>(8*uint(j+1)))%200)
+				if (h>>40)&3 == 0 {
+					n = len(m) / 2
+				}
+				out = append(out, []byte(appText(w.seed, 50000+j+len(m)%89, n)))
+			}
 		}
 		return out
 	}
@@ -233,32 +248,58 @@ func (w *appWorld) client(r *sim.Rand) {
 		w.Fail("upgrade-failed", "", "client-side Upgrade: %v", err)
 		return
 	}
-	for i := 0; i < w.cfg.NMsg && w.Viol == nil; i++ {
-		n := wsLen(r, true)
-		msg := appText(w.seed, 20000+i, n)
+	for i := 0; i < w.cfg.NMsg && w.Viol == nil; {
+		// one message, or a burst of up to four small ones sent before any reply is read
+		k := 1
+		if w.cfg.Burst && r.Chance(0.4) {
+			k = r.Range(2, 4)
+			w.Probes["ws_client_bursts"]++
+		}
+		var msgs []string
 		before := len(w.wsIn)
-		if err := ws.Push(msg); err != nil {
-			w.Fail("client-failed", "", "ws Push: %v", err)
-			return
-		}
-		got, err := ws.Recv()
-		w.Log.U64(uint64(n))
-		w.Probes["ws_messages_bundled_client"]++
-		wsClass(w.World, n)
-		if err != nil {
-			w.Fail("ws-message-lost", "", "message %d (%d bytes): Recv failed: %v", i, n, err)
-			return
-		}
-		if len(w.wsIn) != before+1 || string(w.wsIn[before]) != msg {
-			var l int
-			if len(w.wsIn) > before {
-				l = len(w.wsIn[before])
+		for j := 0; j < k; j++ {
+			n := wsLen(r, true)
+			if k > 1 && n > 4000 {
+				n = r.Intn(4000) // a burst must fit the socket buffers: nobody is reading yet
 			}
-			w.Fail("ws-message-altered", "to-server", "text message %d of %d bytes reached the server as %d message(s), first of %d bytes", i, n, len(w.wsIn)-before, l)
-			return
+			msg := appText(w.seed, 20000+i, n)
+			i++
+			msgs = append(msgs, msg)
+			if err := ws.Push(msg); err != nil {
+				w.Fail("client-failed", "", "ws Push: %v", err)
+				return
+			}
+			w.Log.U64(uint64(n))
+			w.Probes["ws_messages_bundled_client"]++
+			wsClass(w.World, n)
 		}
-		if want := string(w.wsReply([]byte(msg))); got != want {
-			w.Fail("ws-message-altered", "to-client", "server sent a text message of %d bytes, the client received %d bytes (first difference at %d)", len(want), len(got), firstDiff(got, want))
+		for j, msg := range msgs {
+			n := len(msg)
+			for ri, want := range w.wsReply([]byte(msg)) {
+				got, err := ws.Recv()
+				if err != nil {
+					w.Fail("ws-message-lost", "", "message %d (%d bytes), reply %d: Recv failed: %v", j, n, ri, err)
+					return
+				}
+				if ri > 0 {
+					w.Probes["ws_server_burst_messages"]++
+				}
+				if got != string(want) {
+					w.Fail("ws-message-altered", "to-client", "server sent a text message of %d bytes (reply %d to a %d-byte message), the client received %d bytes (first difference at %d)", len(want), ri, n, len(got), firstDiff(got, string(want)))
+					return
+				}
+			}
+			if len(w.wsIn) <= before+j || string(w.wsIn[before+j]) != msg {
+				var l int
+				if len(w.wsIn) > before+j {
+					l = len(w.wsIn[before+j])
+				}
+				w.Fail("ws-message-altered", "to-server", "text message of %d bytes (number %d of a burst of %d) reached the server as %d bytes", n, j, k, l)
+				return
+			}
+		}
+		if len(w.wsIn) != before+k {
+			w.Fail("ws-message-altered", "to-server", "%d messages sent, the server received %d", k, len(w.wsIn)-before)
 			return
 		}
 	}
@@ -397,60 +438,78 @@ func (w *appWorld) rawWS(r *sim.Rand) {
 			mk = [4]byte{0xff, 0xff, 0xff, 0xff}
 		}
 		frame := []byte{0x81}
+		maskBit := byte(0x80)
+		if r.Chance(0.3) {
+			maskBit = 0 // an unmasked frame between masked ones
+			w.Probes["ws_unmasked_raw_frames"]++
+		}
 		switch {
 		case n <= 125:
-			frame = append(frame, 0x80|byte(n))
+			frame = append(frame, maskBit|byte(n))
 		case n <= 65535:
-			frame = append(frame, 0x80|126, byte(n>>8), byte(n))
+			frame = append(frame, maskBit|126, byte(n>>8), byte(n))
 		default:
 			var l [8]byte
 			binary.BigEndian.PutUint64(l[:], uint64(n))
-			frame = append(append(frame, 0x80|127), l[:]...)
+			frame = append(append(frame, maskBit|127), l[:]...)
 		}
-		frame = append(frame, mk[:]...)
-		for j, b := range msg {
-			frame = append(frame, b^mk[j&3])
+		if maskBit != 0 {
+			frame = append(frame, mk[:]...)
+			for j, b := range msg {
+				frame = append(frame, b^mk[j&3])
+			}
+		} else {
+			frame = append(frame, msg...)
 		}
 		before := len(w.wsIn)
 		if !c.write(frame) {
 			w.Fail("client-failed", "", "raw websocket client: write failed")
 			return
 		}
-		// the server's (unmasked) reply
-		h, ok := c.readN(2)
-		if !ok {
-			w.Fail("ws-message-lost", "", "masked message %d (%d bytes, key % x) drew no reply", i, n, mk)
-			return
-		}
-		ln := int(h[1] & 0x7f)
-		if h[0] != 0x81 || h[1]&0x80 != 0 {
-			w.Fail("ws-frame-malformed", "", "server frame starts % x: want a final, unmasked text frame", h)
-			return
-		}
-		switch ln {
-		case 126:
-			x, _ := c.readN(2)
-			ln = int(binary.BigEndian.Uint16(x))
-			if ln <= 125 {
-				w.Fail("ws-frame-malformed", "", "server used the 16-bit length form for %d bytes", ln)
+		// the server's (unmasked) replies
+		for ri, want := range w.wsReply(msg) {
+			h, ok := c.readN(2)
+			if !ok {
+				w.Fail("ws-message-lost", "", "masked message %d (%d bytes, key % x) drew no reply %d", i, n, mk, ri)
+				return
 			}
-		case 127:
-			x, _ := c.readN(8)
-			ln = int(binary.BigEndian.Uint64(x))
-			if ln <= 65535 {
-				w.Fail("ws-frame-malformed", "", "server used the 64-bit length form for %d bytes", ln)
+			ln := int(h[1] & 0x7f)
+			if h[0] != 0x81 || h[1]&0x80 != 0 {
+				w.Fail("ws-frame-malformed", "", "server frame starts % x: want a final, unmasked text frame", h)
+				return
+			}
+			switch ln {
+			case 126:
+				x, _ := c.readN(2)
+				ln = int(binary.BigEndian.Uint16(x))
+				if ln <= 125 {
+					w.Fail("ws-frame-malformed", "", "server used the 16-bit length form for %d bytes", ln)
+				}
+			case 127:
+				x, _ := c.readN(8)
+				ln = int(binary.BigEndian.Uint64(x))
+				if ln <= 65535 {
+					w.Fail("ws-frame-malformed", "", "server used the 64-bit length form for %d bytes", ln)
+				}
+			}
+			if ln > 1<<20 {
+				w.Fail("ws-frame-malformed", "", "server announced a frame of %d bytes, the reply has %d", ln, len(want))
+				return
+			}
+			body, ok := c.readN(ln)
+			if ri > 0 {
+				w.Probes["ws_server_burst_messages"]++
+			}
+			if !ok || !bytes.Equal(body, want) {
+				w.Fail("ws-message-altered", "to-client", "reply %d to raw message %d (%d bytes): got %d bytes, want %d, first difference at %d", ri, i, n, len(body), len(want), firstDiff(string(body), string(want)))
+				return
 			}
 		}
-		body, ok := c.readN(ln)
 		w.Log.U64(uint64(n) | 1<<40)
 		w.Probes["ws_messages_masked_raw_client"]++
 		wsClass(w.World, n)
 		if len(w.wsIn) != before+1 || !bytes.Equal(w.wsIn[before], msg) {
-			w.Fail("ws-message-altered", "to-server", "masked text message %d of %d bytes (key % x) did not reach the server intact", i, n, mk)
-			return
-		}
-		if !ok || !bytes.Equal(body, w.wsReply(msg)) {
-			w.Fail("ws-message-altered", "to-client", "reply to masked message %d (%d bytes): got %d bytes, first difference at %d", i, n, len(body), firstDiff(string(body), string(w.wsReply(msg))))
+			w.Fail("ws-message-altered", "to-server", "text message %d of %d bytes (masked=%v, key % x) did not reach the server intact", i, n, maskBit != 0, mk)
 			return
 		}
 	}
